@@ -1063,7 +1063,11 @@ func c09G3(c *rt.Ctx) {
 	if updates == 0 && res.Complete {
 		c.Bail("no insertion into the share map")
 	}
-	fill.flush(acc, allC)
+	// The round-5 clause "every partial of the entry enters the share map" (seed C09-r5A) is WITHDRAWN: on the regression
+	// corpus it raised VIOLATIONs on six behaviour-preserving refactorings (index loops, fill helpers, publish closures) because
+	// the loop-exhaustion tests of earlier activations are not separated reliably. The recorder is kept for a later round.
+	_ = fill
+	_ = allC
 	acc.flush(c)
 	// the cheap pre-check on the raw list is implied by the test above (len(map) <= len(list)); recorded when present
 	if taPaths > 0 && prePaths == taPaths {
